@@ -59,6 +59,10 @@ NA = {
  "C02": "agreement of the three evaluators Id::run / Id::paths / Id::update is a property of the interpreter (see C01); the value-level position primitives updates bottom out in are decided under C10",
  "C04": "stack depth and retained heap as a function of iteration count are not assertions over program states a bounded model checker encodes; the call classification producing them lives in compile.rs (out of reach, see C01)",
  "C06": "absence of system calls over all filters and documents is a whole-program call-graph property including third-party decoders; Kani cannot execute FFI or I/O and nothing in this technique family observes the system-call boundary",
+ "C07": "print-then-parse needs core::fmt on the write side (formatting is the subject and cannot be stubbed) and hifijson/Bytes on the read side: the 1-byte to_json -> parse_single probe was undecided at 25 min / 7.6 GB; not claimed (DESIGN.md §4)",
+ "C11": "fold::fold and funs::range run on boxed result streams with Exn; the same shapes (Results / Exn / Vec) did not decide for cmp_by and flat_map_then within 300 s (DESIGN.md §2.3); not claimed",
+ "C13": "explode/implode round trip on all 2-byte strings undecided at 300 s (Vec, bstr::decode_utf8); kept as a thorough-tier attempt under a 40 min cap, not claimed; base64/URI/HTML/regex are third-party crates",
+ "C14": "the YAML plain-scalar writer/reader probe was undecided at 15 min (big-integer fallback unrolled); CBOR/TOML/XML go through third-party parsers; not claimed",
  "C16": "module loading is file-system calls (canonicalize, read_to_string), a typed arena and the compiler's B-tree maps; no symbolic file system is available",
  "C17": "process-level behaviour (stdout bytes, exit status); Cli::parse is bound to std::env::ArgsOs and cannot be driven symbolically without generalising its type",
  "C18": "quantifies over crash points and file-system states during tempfile/rename/set_permissions; no symbolic file system, and Kani cannot execute the calls",
@@ -75,10 +79,10 @@ def main():
             "thorough_cmd": f"bin/check {pid} --tier thorough",
             "evidence_file": f"/verif/evidence/{pid}.json",
             "replay_cmd_template": "bin/check --replay {path}",
-            "engine": "kani-cbmc" ,
+            "engine": "kani-cbmc" + ("+mir-smt" if pid in ("C05", "C20") else ""),
             "level_claimed": {"category": "model_checking", "text": text, "design_ref": ref},
             "level_note": note,
-            "technique": "solver-based bounded model checking of the real code (Kani 0.68 -> CBMC 6.11 -> CaDiCaL SAT) with in-crate harnesses over kani::any() inputs; counterexamples replayed natively by concrete playback",
+            "technique": "solver-based bounded model checking of the real code (Kani 0.68 -> CBMC 6.11 -> CaDiCaL SAT) with in-crate harnesses over kani::any() inputs; counterexamples replayed natively by concrete playback" + ("; plus MIR -> SMT-LIB2 (z3 and cvc5) over-approximate encoding of every arithmetic panic site, candidates replayed through the jaq binary" if pid in ("C05", "C20") else ""),
         })
     m = {
         "version": 1,
@@ -93,7 +97,7 @@ def main():
         "engines": [
             {"name": "kani-cbmc", "path": "bin/check", "serves_properties": sorted(CLAIMED),
              "kind_free_text": "E1: Kani 0.68 / CBMC 6.11 bounded model checking of harness modules mounted into an overlay copy of /repo"},
-            {"name": "mir-smt", "path": "lib/e2.py", "serves_properties": [],
+            {"name": "mir-smt", "path": "lib/e2.py", "serves_properties": ["C05", "C20"],
              "kind_free_text": "E2: MIR -> SMT-LIB2 obligation checker (z3, cross-checked with cvc5) for integer kernels CBMC cannot decide"},
         ],
         "checks": checks,
